@@ -28,3 +28,7 @@ mod gen_c20;
 mod gen_c15;
 #[cfg(kani)]
 mod c18;
+#[cfg(kani)]
+mod c07;
+#[cfg(kani)]
+mod c03;
